@@ -20,39 +20,7 @@ func canonicaliseComparisons(pkgs []*packages.Package) int {
 	n := 0
 	for _, p := range pkgs {
 		info := p.TypesInfo
-		isConst := func(e ast.Expr) bool {
-			if id, ok := ast.Unparen(e).(*ast.Ident); ok && id.Name == "nil" {
-				if _, ok := info.Uses[id].(*types.Nil); ok {
-					return true
-				}
-			}
-			tv, ok := info.Types[e]
-			return ok && tv.Value != nil
-		}
-		// equalities: the operand that says less about the program goes to the right - compound expressions before
-		// plain variables and fields, those before package-level objects, those before constants and nil; equal
-		// ranks are ordered by their text
-		rank := func(e ast.Expr) int {
-			if isConst(e) {
-				return 3
-			}
-			var obj types.Object
-			switch x := ast.Unparen(e).(type) {
-			case *ast.Ident:
-				obj = info.Uses[x]
-			case *ast.SelectorExpr:
-				obj = info.Uses[x.Sel]
-				if _, isField := obj.(*types.Var); isField && obj.(*types.Var).IsField() {
-					return 1
-				}
-			default:
-				return 0
-			}
-			if obj != nil && obj.Pkg() != nil && obj.Parent() == obj.Pkg().Scope() {
-				return 2
-			}
-			return 1
-		}
+		rank := func(e ast.Expr) int { return operandRank(info, e) }
 		for _, f := range p.Syntax {
 			ast.Inspect(f, func(nd ast.Node) bool {
 				be, ok := nd.(*ast.BinaryExpr)
@@ -90,6 +58,13 @@ func canonicaliseUpdates(pkgs []*packages.Package) int {
 	for _, p := range pkgs {
 		info := p.TypesInfo
 		for _, f := range p.Syntax {
+			for _, d := range f.Decls {
+				if fd, ok := d.(*ast.FuncDecl); ok && fd.Body != nil {
+					k := &ifCanon{info: info}
+					fd.Body.List = k.stmts(fd.Body.List)
+					n += k.n
+				}
+			}
 			astutil.Apply(f, nil, func(c *astutil.Cursor) bool {
 				// `var x = v` as a statement is `x := v`
 				if ds, isD := c.Node().(*ast.DeclStmt); isD {
@@ -147,4 +122,272 @@ func canonicaliseUpdates(pkgs []*packages.Package) int {
 		}
 	}
 	return n
+}
+
+// ifCanon puts if statements into one of their equivalent spellings, list by list, innermost lists first:
+//
+//	if !c {A} else {B}            ->  if c {B} else {A}
+//	if a != b {A} else {B}        ->  if a == b {B} else {A}
+//	if x < y {A} else {B}         ->  if y <= x {B} else {A}     when x is the more constant operand (likewise <=)
+//	if c {A; return} else {B}     ->  if c {A; return}; B        (also continue / break / goto)
+//	if c {A} else {B; return}     ->  if !c {B; return}; A
+//	if c {A; return}; B; return   ->  if !c {B; return}; A; return     when B is the smaller of the two
+//
+// so that the guard-clause style and the if-else style, a condition and its negation with the branches exchanged, and
+// "success inside the if, error after it" versus "error first" all look the same to every rule. Objects were resolved
+// before, so moving statements across the scope of an if changes nothing for the analyses.
+type ifCanon struct {
+	info *types.Info
+	n    int
+}
+
+// orient puts the condition of an if-else into its canonical polarity, exchanging the branches as needed.
+func (k *ifCanon) orient(ifs *ast.IfStmt) {
+	for {
+		blk, ok := ifs.Else.(*ast.BlockStmt)
+		if !ok {
+			break
+		}
+		swap := false
+		switch x := ast.Unparen(ifs.Cond).(type) {
+		case *ast.UnaryExpr:
+			if x.Op == token.NOT {
+				ifs.Cond, swap = x.X, true
+			}
+		case *ast.BinaryExpr:
+			switch x.Op {
+			case token.NEQ:
+				x.Op, swap = token.EQL, true
+			case token.LSS, token.LEQ:
+				rx, ry := operandRank(k.info, x.X), operandRank(k.info, x.Y)
+				if rx > ry || (rx == ry && types.ExprString(x.X) > types.ExprString(x.Y)) {
+					x.X, x.Y = x.Y, x.X
+					if x.Op == token.LSS {
+						x.Op = token.LEQ
+					} else {
+						x.Op = token.LSS
+					}
+					swap = true
+				}
+			}
+		}
+		if !swap {
+			break
+		}
+		ifs.Body, ifs.Else = blk, ifs.Body
+		k.n++
+	}
+}
+
+func (k *ifCanon) inner(n ast.Node) {
+	ast.Inspect(n, func(m ast.Node) bool {
+		switch x := m.(type) {
+		case *ast.IfStmt:
+			k.orient(x) // also for an `else if`, which is not an element of a statement list
+		case *ast.BlockStmt:
+			x.List = k.stmts(x.List)
+			return false
+		case *ast.CaseClause:
+			x.Body = k.stmts(x.Body)
+			return false
+		case *ast.CommClause:
+			x.Body = k.stmts(x.Body)
+			return false
+		}
+		return true
+	})
+}
+
+func (k *ifCanon) stmts(list []ast.Stmt) []ast.Stmt {
+	for _, st := range list {
+		k.inner(st)
+	}
+	for round := 0; round < 50; round++ {
+		changed := false
+		for i := len(list) - 1; i >= 0; i-- {
+			ifs, ok := list[i].(*ast.IfStmt)
+			if !ok {
+				continue
+			}
+			k.orient(ifs)
+			// the statements that run when the condition is false: the else block, or - when the body always
+			// leaves - what follows the if
+			rest := list[i+1:]
+			switch els := ifs.Else.(type) {
+			case *ast.BlockStmt:
+				tT, tE := terminates(ifs.Body.List), terminates(els.List)
+				if (tE && !tT) || (tT && tE && k.guardFirst(els.List, ifs.Body.List)) {
+					if neg := negateCond(k.info, ifs.Cond); neg != nil {
+						ifs.Cond = neg
+						ifs.Body, els = els, ifs.Body
+						ifs.Else = els
+						k.n++
+					}
+				}
+				if terminates(ifs.Body.List) {
+					ifs.Else = nil
+					nl := append([]ast.Stmt{}, list[:i+1]...)
+					nl = append(nl, els.List...)
+					list = append(nl, rest...)
+					k.n++
+					changed = true
+				}
+			case *ast.IfStmt:
+				if terminates(ifs.Body.List) {
+					ifs.Else = nil
+					nl := append([]ast.Stmt{}, list[:i+1]...)
+					nl = append(nl, els)
+					list = append(nl, rest...)
+					k.n++
+					changed = true
+				}
+			case nil:
+				if len(rest) > 0 && terminates(ifs.Body.List) && terminates(rest) && !hasLabel(rest) && k.guardFirst(rest, ifs.Body.List) {
+					if neg := negateCond(k.info, ifs.Cond); neg != nil {
+						ifs.Cond = neg
+						body := ifs.Body.List
+						ifs.Body.List = append([]ast.Stmt{}, rest...)
+						list = append(append([]ast.Stmt{}, list[:i+1]...), body...)
+						k.n++
+						changed = true
+					}
+				}
+			}
+		}
+		if !changed {
+			break
+		}
+	}
+	return list
+}
+
+// guardFirst: of two statement lists that both leave, should a (rather than b) be the guard clause? The one that is an
+// error exit (ends in a return whose last result is a non-nil error) when the other is not; otherwise the smaller one.
+func (k *ifCanon) guardFirst(a, b []ast.Stmt) bool {
+	ea, eb := k.errorExit(a), k.errorExit(b)
+	if ea != eb {
+		return ea
+	}
+	return nodeCountList(a) < nodeCountList(b)
+}
+
+func (k *ifCanon) errorExit(list []ast.Stmt) bool {
+	if len(list) == 0 {
+		return false
+	}
+	rs, ok := list[len(list)-1].(*ast.ReturnStmt)
+	if !ok || len(rs.Results) == 0 {
+		return false
+	}
+	last := ast.Unparen(rs.Results[len(rs.Results)-1])
+	if id, ok := last.(*ast.Ident); ok && id.Name == "nil" {
+		return false
+	}
+	t := k.info.TypeOf(last)
+	if t == nil {
+		return false
+	}
+	if it, ok := t.Underlying().(*types.Interface); ok {
+		for i := 0; i < it.NumMethods(); i++ {
+			if it.Method(i).Name() == "Error" {
+				return true
+			}
+		}
+		return false
+	}
+	// a concrete error value
+	ms := types.NewMethodSet(t)
+	return ms.Lookup(nil, "Error") != nil
+}
+
+func hasLabel(list []ast.Stmt) bool {
+	for _, st := range list {
+		if _, ok := st.(*ast.LabeledStmt); ok {
+			return true
+		}
+	}
+	return false
+}
+
+func nodeCountList(list []ast.Stmt) int {
+	k := 0
+	for _, st := range list {
+		k += nodeCount(st)
+	}
+	return k
+}
+
+func nodeCount(n ast.Node) int {
+	k := 0
+	ast.Inspect(n, func(m ast.Node) bool {
+		if m != nil {
+			k++
+		}
+		return true
+	})
+	return k
+}
+
+// negateCond returns the negation of a boolean expression: comparisons are flipped in place (staying in the canonical
+// `<` / `<=` / `==` / `!=` forms), `!x` loses its `!`, anything else is wrapped in a new `!` node whose type is
+// recorded so that later consumers (the SSA builder, the evaluators) find it.
+func negateCond(info *types.Info, e ast.Expr) ast.Expr {
+	e = ast.Unparen(e)
+	switch x := e.(type) {
+	case *ast.UnaryExpr:
+		if x.Op == token.NOT {
+			return x.X
+		}
+	case *ast.BinaryExpr:
+		switch x.Op {
+		case token.EQL:
+			x.Op = token.NEQ
+			return x
+		case token.NEQ:
+			x.Op = token.EQL
+			return x
+		case token.LSS:
+			x.X, x.Y, x.Op = x.Y, x.X, token.LEQ
+			return x
+		case token.LEQ:
+			x.X, x.Y, x.Op = x.Y, x.X, token.LSS
+			return x
+		}
+	}
+	tv, ok := info.Types[e]
+	if !ok || tv.Value != nil {
+		return nil
+	}
+	neg := &ast.UnaryExpr{OpPos: e.Pos(), Op: token.NOT, X: e}
+	info.Types[neg] = tv
+	return neg
+}
+
+// operandRank orders the operands of a comparison: compound expressions (0) before plain variables and fields (1),
+// those before package-level objects (2), those before constants and nil (3).
+func operandRank(info *types.Info, e ast.Expr) int {
+	if id, ok := ast.Unparen(e).(*ast.Ident); ok && id.Name == "nil" {
+		if _, ok := info.Uses[id].(*types.Nil); ok {
+			return 3
+		}
+	}
+	if tv, ok := info.Types[e]; ok && tv.Value != nil {
+		return 3
+	}
+	var obj types.Object
+	switch x := ast.Unparen(e).(type) {
+	case *ast.Ident:
+		obj = info.Uses[x]
+	case *ast.SelectorExpr:
+		obj = info.Uses[x.Sel]
+		if v, isVar := obj.(*types.Var); isVar && v.IsField() {
+			return 1
+		}
+	default:
+		return 0
+	}
+	if obj != nil && obj.Pkg() != nil && obj.Parent() == obj.Pkg().Scope() {
+		return 2
+	}
+	return 1
 }
